@@ -243,7 +243,11 @@ def tree_hash_dir(d):
 class Facts:
     def __init__(self, path):
         with open(path) as f:
-            d = json.load(f)
+            txt = f.read()
+        if not os.path.basename(path).startswith('parity_scale_codec'):
+            # items of the library print with the crate name when seen from another crate
+            txt = txt.replace('parity_scale_codec::', '')
+        d = json.loads(txt)
         self.path = path
         self.crate = d['crate']
         self.cfg = d['cfg']
@@ -262,6 +266,25 @@ class Facts:
             if f.get('parent'):
                 self.children.setdefault(f['parent'], []).append(f)
         self._impl_methods = None
+
+    def merge(self, other):
+        """view of this crate's facts together with those of a dependency (impl lookup, helper
+        inlining and type-level shapes then see both)"""
+        self.impls = self.impls + other.impls
+        self.own_fns = list(self.fns)
+        self.fns = self.fns + other.fns
+        for k, v in other.by_path.items():
+            self.by_path.setdefault(k, v)
+        for k, v in other.adt_by_path.items():
+            self.adt_by_path.setdefault(k, v)
+        for k, v in other.consts.items():
+            self.consts.setdefault(k, v)
+        for k, v in other.traits.items():
+            self.traits.setdefault(k, v)
+        for k, v in other.children.items():
+            self.children.setdefault(k, v)
+        self.merged_with = other.crate
+        return self
 
     def impls_of(self, trait_suffix):
         return [i for i in self.impls if i['trait'] and tname(i['trait']) == trait_suffix]
